@@ -1,6 +1,7 @@
 package fs
 
 import (
+	"archive/tar"
 	"bytes"
 	"database/sql"
 	"io"
@@ -151,6 +152,17 @@ func (f *File) syncWithoutLocking() error {
 					f.log,
 				)
 
+				// `archive/tar` takes ownership and the access/change times only from a `*tar.Header`; hand the info over as one,
+				// otherwise every content write resets the owner of the file
+				hdr, err := tar.FileInfoHeader(f.info, f.link)
+				if err != nil {
+					return config.FileConfig{}, err
+				}
+				hdr.Uid = uid
+				hdr.Gid = gid
+				hdr.AccessTime = accessTime
+				hdr.ChangeTime = changeTime
+
 				return config.FileConfig{
 					GetFile: func() (io.ReadSeekCloser, error) {
 						if _, err := f.writeBuf.Seek(0, io.SeekStart); err != nil {
@@ -159,7 +171,7 @@ func (f *File) syncWithoutLocking() error {
 
 						return f.writeBuf, nil
 					},
-					Info: f.info,
+					Info: hdr.FileInfo(),
 					Path: f.path,
 					Link: f.link,
 				}, nil
